@@ -30,7 +30,7 @@ def main():
             checked += 1
             want = item["want"]
             if got != want:
-                what = next((k for k in ("load", "link", "listing", "metadata_functions", "runs") if got.get(k) != want.get(k)), "?")
+                what = next((k for k in ("load", "link", "listing", "metadata_functions", "metadata_types", "metadata_keys", "globals", "imports", "function_types", "constants", "runs") if got.get(k) != want.get(k)), "?")
                 failures.append({"fam": item["fam"], "opt": item["opt"], "what": what, "source": item["source"], "units": item["units"],
                                  "expected": str(want.get(what))[:300], "observed": str(got.get(what))[:300]})
     with open(os.path.join(d, "reader_out.json"), "w") as f:
